@@ -764,8 +764,16 @@ template<RuleLocal::erule effrule>
 std::vector<int> GridLocalPolynomial::getSubGraph(std::vector<int> const &point) const{
     std::vector<int> graph, p = point;
     std::vector<bool> used(points.getNumIndexes(), false);
-    int max_1d_kids = RuleLocal::getMaxNumKids<effrule>();
+    // the semi-local rule has step-parents (level-2 nodes depend on the opposite boundary node) that are not listed as kids,
+    // the surpluses of those dependents must be updated too, so they are added as one extra "kid"
+    constexpr bool has_step_kids = (effrule == RuleLocal::erule::semilocalp);
+    int num_real_kids = RuleLocal::getMaxNumKids<effrule>();
+    int max_1d_kids = num_real_kids + ((has_step_kids) ? 1 : 0);
     int max_kids = max_1d_kids * num_dimensions;
+    auto get_dependent = [&](int pnt, int k)->int{
+        if (k < num_real_kids) return RuleLocal::getKid<effrule>(pnt, k);
+        return (pnt == 1) ? 4 : ((pnt == 2) ? 3 : -1); // inverse of getStepParent() for the semi-local rule
+    };
 
     std::vector<int> monkey_count(1, 0), monkey_tail;
 
@@ -773,8 +781,8 @@ std::vector<int> GridLocalPolynomial::getSubGraph(std::vector<int> const &point)
         if (monkey_count.back() < max_kids){
             int dim = monkey_count.back() / max_1d_kids;
             monkey_tail.push_back(p[dim]);
-            p[dim] = RuleLocal::getKid<effrule>(monkey_tail.back(), monkey_count.back() % max_1d_kids);
-            int slot = points.getSlot(p);
+            p[dim] = get_dependent(monkey_tail.back(), monkey_count.back() % max_1d_kids);
+            int slot = (p[dim] == -1) ? -1 : points.getSlot(p);
             if ((slot == -1) || used[slot]){ // this kid is missing
                 p[dim] = monkey_tail.back();
                 monkey_tail.pop_back();
